@@ -108,6 +108,13 @@ def main():
     ok = v[0]["ok"] and (not v[1]["ok"]) and v[1]["groups"] == ["g"]
     print(("ok   " if ok else "FAIL ") + "Equiv: identical pair accepted, one corrupted growth-row digest reported")
     bad += 0 if ok else 1
+    # AquaSeasons (C08 as a two-run model): leaving ONE field out of the season-start reset must make TLC find a weather sequence that
+    # tells season K of the multi-season run from the fresh run (the invariant Independent is not vacuous)
+    for fld in ("dem", "cnt", "pond", "cum"):
+        r = tlc.run_mc("AquaSeasons.tla", f"MC_Seasons_neg_{fld}.cfg", workers=4, timeout=300)
+        ok = "Independent" in r["violated"]
+        print(("ok   " if ok else "FAIL ") + f"AquaSeasons: reset without '{fld}' -> " + (", ".join(r["violated"]) or "no violation found"))
+        bad += 0 if ok else 1
     print("selftest:", "passed" if not bad else f"{bad} failure(s)")
     sys.exit(0 if not bad else 2)
 
